@@ -569,6 +569,7 @@ class ScriptGen:
         self.opaque = set()      # registers whose value the implementation side cannot observe
         self.spare = {}          # second vectors created from one reference array, waiting for a use
         self.corder = None       # {table: add order inside the generated <T>_create} (create_order)
+        self.thash = None        # {root name: type hash} of the schema
         self.gen_api = False     # use the generated builder api for tables (needs the per-schema glue harness)
         self.kinds = {}          # statistics: op style histogram
 
@@ -784,20 +785,51 @@ class ScriptGen:
                 rv, rt = self.uvec([(c, None if e is None else self.node(e)) for c, e in v.a])
                 self.h.append('Gv:%d:%d:%d:%d' % (t, j, rt, rv))
                 madds.append('o/%d/%d' % (f.id - 1, rt)); madds.append('o/%d/%d' % (f.id, rv)); kept.append((f, v))
-            elif v.kind == 'nested' and v.a in s.structs and flat_struct(s, v.a) and rng.random() < 0.6:
-                # <T>_<f>_create_as_root(B, members...): struct created, wrapped by create_buffer(.., is_nested), added
-                size, al, _ = s.struct_layout(v.a)
-                self.h.append('Gn:%d:%d:%s' % (t, j, hx(v.b.a)))
+            elif v.kind == 'nested' and rng.random() < 0.6:
+                # the GENERATED routes of a nested_flatbuffer field (see gen_glue_build, op Gn)
                 idw = int.from_bytes(s.ident.encode(), 'little') if s.ident else 0
-                # buffer_start, struct, buffer_end (fix 5438d76, fixes/C15-nested-struct-create-as-root-mark.patch; before it the
-                # generator called create_buffer(.., is_nested) without start_buffer: length taken from the parent's mark)
-                self.m.append('B:%d:0:0' % idw)
-                self.m.append('R:%d:%s' % (al, hx(v.b.a))); rs = self.new()
-                self.m.append('E:%d' % rs); rb = self.new()
+                variants = ['n', 'N']
+                if v.a in s.structs:
+                    variants += ['s', 'S', 'k', 'K'] + (['c', 'C'] if flat_struct(s, v.a) else [])
+                var = rng.choice(variants)
+                self.stat('nested_generated_' + var)
+                v.c['with_size'] = False; v.c['style'] = 'gen'
+                if var in 'nN':
+                    # <field>_nest(B, data, size, align): an existing buffer; align 0 / too small is raised to the struct's alignment
+                    # (struct target) resp. defaults to 8 (table target)
+                    def plain(x):
+                        if x.kind == 'nested': x.c['with_size'] = False; x.c['style'] = 'se'; plain(x.b)
+                        elif x.kind == 'table':
+                            for _, y in x.b: plain(y)
+                        elif x.kind == 'offvec':
+                            for e in x.a: plain(e)
+                        elif x.kind == 'union' and x.b is not None: plain(x.b)
+                        elif x.kind == 'uvec':
+                            for _, e in x.a:
+                                if e is not None: plain(e)
+                    plain(v.b)
+                    enc = IndepEncoder(s, rng, extra_pad=False)
+                    data = enc.buffer(v.a, v.b, False, None)
+                    if v.a in s.structs:
+                        A = s.struct_layout(v.a)[1]
+                        arg = rng.choice([0, 0, 1, 4, A, 2 * A])
+                        eff = max(arg, A)
+                    else:
+                        arg = rng.choice([0, enc.maxal, max(enc.maxal, 16)]) if enc.maxal <= 8 else rng.choice([enc.maxal, 2 * enc.maxal])
+                        eff = arg if arg else 8
+                    self.h.append('Gn:%d:%d:%s:%s:%d' % (t, j, var, hx(data), arg))
+                    self.m.append('V:1:%d:%d:%d:%s' % (eff, UOFFSET_MAX, len(data), hx(data))); rb = self.new(); self.opaque.add(rb)
+                else:
+                    size, al, _ = s.struct_layout(v.a)
+                    self.h.append('Gn:%d:%d:%s:%s:0' % (t, j, var, hx(v.b.a)))
+                    # buffer_start(fid), the struct, buffer_end; only _create_as_typed_root passes the type identifier
+                    # (_start_as_typed_root of a nested struct root passes the file identifier in the generated code)
+                    idm = (self.thash or {}).get(v.a, 0) if var in 'CK' else idw
+                    self.m.append('B:%d:0:0' % idm)
+                    self.m.append('R:%d:%s' % (al, hx(v.b.a))); rs = self.new()
+                    self.m.append('E:%d' % rs); rb = self.new()
+                    self.opaque.update([rs, rb])
                 madds.append('o/%d/%d' % (f.id, rb)); kept.append((f, v))
-                v.c['with_size'] = False; v.c['gen_create'] = True
-                self.opaque.update([rs, rb])     # the generated call does not return these two references (the harness records 0)
-                self.stat('nested_struct_create_as_root')
             elif k == 'string' and rng.random() < 0.6:
                 # <T>_<f>_create / _create_str / _create_strn / _start+append+_end / _clone / _slice (a private copy of the value:
                 # the call does not return the reference, so the object cannot be shared)
@@ -1404,18 +1436,31 @@ def gen_glue_build(s):
                 w('    case %d: { %s_union_vec_ref_t u; u.type = regs[atoi(f[3])]; u.value = regs[atoi(f[4])]; return %s_%s_add(B, u); }'
                   % (i * 1000 + j, u, tn, fl.name))
     w('  } return -1; }')
-    # nested struct root from members
-    w('  if (!strcmp(f[0], "Gn")) { int rc = -1; n = hx_decode(f[3], &d); switch (key) {')
+    # nested_flatbuffer fields through the generated routes: Gn:<t>:<fi>:<variant>:<hex>:<align>
+    #   struct target: c _create_as_root, C _create_as_typed_root, s _start_as_root/_end_as_root, S _start_as_typed_root/_end_as_typed_root,
+    #                  k _clone_as_root, K _clone_as_typed_root (hex = the struct), n _nest, N _typed_nest (hex = a finished buffer, align argument)
+    #   table target:  n _nest, N _typed_nest
+    w('  if (!strcmp(f[0], "Gn")) { int rc = -1; char var = f[3][0]; uint16_t al_ = (uint16_t)(nf > 5 ? atoi(f[5]) : 0); n = hx_decode(f[4], &d); switch (key) {')
     for i, tn in enumerate(tabs):
         for j, fl in enumerate(s.live_fields(tn)):
-            if fl.nested and fl.nested in s.structs and flat_struct(s, fl.nested):
-                size, al, members = s.struct_layout(fl.nested)
-                args = []
-                w('    case %d: {' % (i * 1000 + j))
-                for k, (mn, off, mt, sz) in enumerate(members):
-                    w('      %s a%d; memcpy(&a%d, d + %d, sizeof(a%d));' % (ctype(mt), k, k, off, k))
-                    args.append('a%d' % k)
-                w('      rc = %s_%s_create_as_root(B, %s); push_reg(0); push_reg(0); } break;' % (tn, fl.name, ', '.join(args)))
+            if not fl.nested: continue
+            P = '%s_%s' % (tn, fl.name)
+            w('    case %d: switch (var) {' % (i * 1000 + j))
+            w('      case \'n\': rc = %s_nest(B, d, n, al_); push_reg(0); break; case \'N\': rc = %s_typed_nest(B, d, n, al_); push_reg(0); break;' % (P, P))
+            if fl.nested in s.structs:
+                S_ = fl.nested
+                size, al, members = s.struct_layout(S_)
+                w('      case \'s\': { %s_t *p_ = %s_start_as_root(B); if (p_) { memcpy(p_, d, %d); rc = %s_end_as_root(B); } push_reg(0); push_reg(0); } break;' % (S_, P, size, P))
+                w('      case \'S\': { %s_t *p_ = %s_start_as_typed_root(B); if (p_) { memcpy(p_, d, %d); rc = %s_end_as_typed_root(B); } push_reg(0); push_reg(0); } break;' % (S_, P, size, P))
+                w('      case \'k\': { %s_t v_; memcpy(&v_, d, sizeof(v_)); rc = %s_clone_as_root(B, &v_); push_reg(0); push_reg(0); } break;' % (S_, P))
+                w('      case \'K\': { %s_t v_; memcpy(&v_, d, sizeof(v_)); rc = %s_clone_as_typed_root(B, &v_); push_reg(0); push_reg(0); } break;' % (S_, P))
+                if flat_struct(s, S_):
+                    decl, args = [], []
+                    for k, (mn, off, mt, sz) in enumerate(members):
+                        decl.append('%s a%d; memcpy(&a%d, d + %d, sizeof(a%d));' % (ctype(mt), k, k, off, k)); args.append('a%d' % k)
+                    w('      case \'c\': { %s rc = %s_create_as_root(B, %s); push_reg(0); push_reg(0); } break;' % (' '.join(decl), P, ', '.join(args)))
+                    w('      case \'C\': { %s rc = %s_create_as_typed_root(B, %s); push_reg(0); push_reg(0); } break;' % (' '.join(decl), P, ', '.join(args)))
+            w('    } break;')
     w('  } free(d); return rc; }')
     # strings, vectors, string vectors and union vectors through the generated field builders
     def str_field_cases(P):
